@@ -284,7 +284,7 @@ def _c11_check(reg, case):
         try:
             with e2e.quiet():
                 cal.model.fail_at = None
-                cal.calibrate(1)
+                cal.calibrate(2)        # (two batches: the retried one and one more - the RL exchange must get going again)
         except RuntimeError as e:
             if "injected" not in str(e):
                 return f"a subsequent calibrate() fails: {e}"
@@ -628,7 +628,15 @@ def _c16s_check(reg, case):
     if case["space_seed"] == -1:
         pts = np.array(list(space.param_grid[0])[: case["n_hist"]], dtype=float).reshape(-1, 1)
         losses = np.arange(len(pts), dtype=float)
+    if case["space_seed"] != -1:
+        # the same sampler object has already served ANOTHER history of the same size (another calibration, recomputed
+        # losses): what it is trained on now must be the history it is given now
+        pts0, losses0 = _history(rnd, space, case["n_hist"], "plain")
+        s.sample(space, pts0, losses0)
+        seen.clear()
     out = s.sample(space, pts, losses)
+    if "fit" not in seen:
+        return "the surrogate was not trained at all on the history it was given (fit was not called)"
     X, y, Xc, yc = seen["fit"]
     if not (np.array_equal(X, pts) and np.array_equal(y, losses)):
         return "the surrogate was not trained on exactly the given history"
